@@ -7,7 +7,7 @@ From Coq Require Import List Bool Arith.
 From Cedar Require Import Model.Lockset.
 Import ListNotations.
 
-Inductive scenario := ScCacheBasic | ScCacheMaint | ScClientShared | ScSecmanShared | ScStreamDuplex | ScPerCommand | ScCacheAtomic | ScSessionIDs | ScFreshKeyDuplex | ScCacheRoute | ScSecretDuplex.
+Inductive scenario := ScCacheBasic | ScCacheMaint | ScClientShared | ScSecmanShared | ScStreamDuplex | ScPerCommand | ScCacheAtomic | ScSessionIDs | ScFreshKeyDuplex | ScCacheRoute | ScSecretDuplex | ScMixedResume.
 Inductive case := CScen (sc : scenario) (procs workers : nat) (races : nat) (post_ok : bool).
 
 (* each scenario as threads of the lockset model (locks: 0 cache, 1 entry, 2 none;
@@ -25,6 +25,7 @@ Definition model_threads (sc : scenario) : list thread :=
   | ScFreshKeyDuplex => [[Acq 3 MW; Wr 3; Rel 3]; [Acq 4 MW; Wr 4; Rel 4]]      (* digests frozen at key install: disjoint state *)
   | ScCacheRoute => [[Acq 0 MW; Wr 0; Rel 0; Acq 0 MW; Wr 0; Rel 0]; [Acq 0 MW; Wr 0; Rel 0]] (* Store;MapCommand || Invalidate: race-free; routing is C17_route_consistent *)
   | ScSecretDuplex => [[Acq 3 MW; Wr 3; Rel 3]; [Acq 4 MW; Wr 4; Rel 4]]        (* no-op secret toggle: disjoint state *)
+  | ScMixedResume => [[Acq 0 MR; Rd 0; Rel 0]; [Acq 0 MR; Rd 0; Rel 0]; [Acq 0 MW; Wr 0; Rel 0]] (* refused and successful resumptions only READ the cached entry's immutable key (C17_cached_key_never_written); the cache map under its lock *)
   | ScStreamDuplex => [[Acq 3 MW; Wr 3; Rel 3]; [Acq 4 MW; Wr 4; Rel 4]]        (* disjoint state: thread-private "locks" *)
   end.
 Definition predicted_race_free (sc : scenario) : bool := forallb (wl g []) (model_threads sc).
